@@ -181,6 +181,14 @@ theorem no_lost_wakeup (s : DState) (hstarted : s.started = true) (hnd : s.reque
     call returns (a `Send` on a context that is already over included). -/
 theorem request_side_starts_request : ∀ w ∈ Gen.requestSideStartsRequest, w.2 = 0 := by decide
 
+/-- **sentinels_only_through_errors_is** (fact regenerated from the source on every run): nowhere
+    in the package is an error compared with `==` / `!=` against `io.EOF`, `io.ErrUnexpectedEOF`,
+    `context.Canceled` or `context.DeadlineExceeded`. `Send` reports "the other side is finished"
+    as a *coded error wrapping* `io.EOF` (`send_after_handler_done`), so code that decides what to
+    do next - carry on to `Receive` for the real outcome, or give up - must look through the
+    wrapping; `GoError.isEOF` / `isCtx` in the model are `errors.Is`. -/
+theorem sentinels_only_through_errors_is : Gen.directSentinelComparisons = [] := by decide
+
 /-- **first_send_enables_response_side**: from any state in which the request goroutine has not
     finished, a request-side call followed by the goroutine's run lets a blocked response-side
     call proceed - no assumption on `started`. -/
@@ -193,6 +201,39 @@ theorem first_send_enables_response_side (s : DState) (hnd : s.requestDone = fal
 /-! non-vacuity -/
 example : receiveMany 4 { stored := none, items := [.ok [1], .bad 3, .ok [2], .endOK] } =
     [.msg [1], .fail 3, .fail 3, .fail 3] := by decide
+
+/-! ### the typed wrapper: `ServerStreamForClient` -/
+
+/-- a failure the wrapper has recorded survives every operation - `Close` included -/
+theorem wrapper_failure_kept (s : SState) (c : Nat) (h : s.receiveErr = some (c, false)) (op : SOp) :
+    (sstep s op).2.receiveErr = some (c, false) := by
+  cases op <;> simp [sstep, h]
+
+theorem wrapper_failure_kept_run : ∀ (ops : List SOp) (s : SState) (c : Nat), s.receiveErr = some (c, false) →
+    (srun s ops).2.receiveErr = some (c, false)
+  | [], s, c, h => by simpa [srun] using h
+  | op :: rest, s, c, h => by
+    simp only [srun]
+    exact wrapper_failure_kept_run rest _ c (wrapper_failure_kept s c h op)
+
+/-- **wrapper_err_sticky**: once `Err()` has reported a code it reports that code after any
+    further sequence of `Receive`, `Err` and `Close` calls (`Close` does not wipe the verdict). -/
+theorem wrapper_err_sticky (s : SState) (c : Nat) (h : (sstep s .err).1 = .err (some c)) (ops : List SOp) :
+    (sstep (srun s ops).2 .err).1 = .err (some c) := by
+  have hs : s.receiveErr = some (c, false) := by
+    simp only [sstep] at h
+    split at h
+    · rename_i code heq; simp at h; subst h; exact heq
+    · simp at h
+  have := wrapper_failure_kept_run ops s c hs
+  simp [sstep, this]
+
+/-- once `Receive` has returned false it returns false for good, without touching the conn -/
+theorem wrapper_receive_false_sticky (s : SState) (h : s.receiveErr.isSome = true) :
+    (sstep s .receive).1 = .recv none ∧ (sstep s .receive).2 = s := by
+  cases hr : s.receiveErr with
+  | none => simp [hr] at h
+  | some e => simp [sstep, hr]
 
 /-! ### observed traces of synchronisation points -/
 
